@@ -408,13 +408,9 @@ func (r *router) find(path string, paramsPointer *param.Params, unescape bool) (
 				i = len(search)
 			}
 			(*paramsPointer) = (*paramsPointer)[:(paramIndex + 1)]
-			val := search[:i]
-			if unescape {
-				if v, err := url.QueryUnescape(search[:i]); err == nil {
-					val = v
-				}
-			}
-			(*paramsPointer)[paramIndex].Value = val
+			// keep the raw value while searching: backtracking derives the path offset from its length,
+			// it is unescaped once the route is chosen
+			(*paramsPointer)[paramIndex].Value = search[:i]
 			paramIndex++
 			search = search[i:]
 			searchIndex = searchIndex + i
@@ -466,6 +462,17 @@ func (r *router) find(path string, paramsPointer *param.Params, unescape bool) (
 		res.fullPath = cn.ppath
 		for i, name := range cn.pnames {
 			(*paramsPointer)[i].Key = name
+		}
+		if unescape && res.handlers != nil {
+			n := len(cn.pnames)
+			if cn.kind == akind {
+				n-- // the catch-all value has been unescaped above
+			}
+			for i := 0; i < n; i++ {
+				if v, err := url.QueryUnescape((*paramsPointer)[i].Value); err == nil {
+					(*paramsPointer)[i].Value = v
+				}
+			}
 		}
 	}
 
